@@ -25,7 +25,7 @@ type c13Expr struct {
 
 var c13Env = map[string]any{
 	"n": 7, "m": 3, "z": 0, "digits": "21", "s": "hello", "t": "World", "e": "", "yes": true, "no": false,
-	"obj": map[string]any{"k": "kv", "num": 5, "flag": true}, "lst": []any{10, 20, 30}, "st": S2{X: 4, Y: "why"}, "uni": "žába", "fl": 2.5,
+	"obj": map[string]any{"k": "kv", "num": 5, "flag": true}, "lst": []any{10, 20, 30}, "st": S2{X: 4, Y: "why"}, "uni": "žába", "fl": 2.5, "negf": -2.75, "bigf": 1234567.89, "tiny": 0.00000015, "big": 1234567,
 }
 
 type c13Gen struct {
@@ -607,11 +607,23 @@ func runC13(r *Run, replay *Case) {
 	c13VarIndex(r)
 	c13QuotedEnds(r)
 	// built-in-only pipe chains: real engine vs the Lean pipe interpreter (parsePipeExpr / evalPipe / callBuiltin), byte for byte
-	heads := []string{"s", "t", "e", "n", "lst", "obj.k", "st.Y", "missing", "'lit'", "upper(s)", "len(lst)", "digits"}
-	segs := []string{"upper", "lower", "trim", "len", "string", "escape", "default('d')", "default(t)", "default(missing)", "default('')", "default(\"s\")", "default('t')", "default(\"a, b\")", "default(\"it's, x\")", "default('5\", w') | upper", "nosuch", "upper(1)", "default", "upper()"}
+	heads := []string{"s", "t", "e", "n", "lst", "obj.k", "st.Y", "missing", "'lit'", "upper(s)", "len(lst)", "digits", "fl", "int(fl)", "int(digits)", "'-12'", "'12abc'", "big"}
+	segs := []string{"upper", "lower", "trim", "len", "string", "escape", "int", "int", "default('d')", "default(t)", "default(missing)", "default('')", "default(\"s\")", "default('t')", "default(\"a, b\")", "default(\"it's, x\")", "default('5\", w') | upper", "nosuch", "upper(1)", "default", "upper()"}
 	np := 250
 	if r.Thorough() {
 		np = 4000
+	}
+	// the built-in `len` counts the bytes of a string; `int` truncates floats and parses decimal strings (non-ASCII text only through the
+	// functions the model has for it: its `upper` / `lower` / `title` are the ASCII ones)
+	for _, e := range []string{"uni | len", "len(uni)", "uni | string | len", "uni | trim | len", "uni | escape | len", "uni | default('x') | len", "e | default(uni) | len", "uni",
+		"fl | int", "int(fl)", "negf | int", "bigf | int", "tiny | int", "digits | int", "'+7' | int", "' 7' | int", "'7.5' | int", "yes | int", "lst | int", "missing | int", "n | int | string | len"} {
+		for _, pos := range []string{"text", "attr"} {
+			tpl := "<p>[[{{ " + e + " }}]]</p>"
+			if pos == "attr" {
+				tpl = `<p :title="` + e + `">x</p>`
+			}
+			r.Add(pageCase("pipe:"+pos, map[string]string{"p.vuego": tpl}, nil, "p.vuego", c13Env, "pos:"+pos, "pipe-builtin-bytes-int"))
+		}
 	}
 	for i := 0; i < np; i++ {
 		e := heads[g.r.Intn(len(heads))]
